@@ -65,6 +65,8 @@ UNITS = {
                   quick=reg(EC, ['k_record_tracker']), thorough=[], assumptions=[STUBS[0]], timeout=900),
     'U-call': dict(functions='Callable for FunctionName (Substring, Join, RegexReplace argument handling)', cls='bounded (every mix of empty / int / string / unresolved argument selections); complete in the i64 offsets',
                    quick=reg(EC, ['k_call_substring_empty2', 'k_call_substring_empty3', 'k_call_substring_str', 'k_call_substring_unres', 'k_call_join_empty', 'k_call_join_int', 'k_call_join_unres', 'k_call_regex_empty2', 'k_call_regex_empty3', 'k_call_substring_offsets']), thorough=[], assumptions=STUBS, timeout=900),
+    'U-call-q': dict(functions='Callable for FunctionName (Substring, Join, RegexReplace argument handling) -- the quick subset of U-call', cls='bounded (empty second argument selection of substring / join / regex_replace); complete in the i64 offsets of substring',
+                   quick=reg(EC, ['k_call_substring_empty2', 'k_call_join_empty', 'k_call_regex_empty2', 'k_call_substring_offsets']), thorough=[], assumptions=STUBS, timeout=600),
     'U-expect': dict(functions='reporters::test::get_status_result', cls='bounded (<= 3 definitions per rule name, all 3^k statuses x 3 expected statuses)',
                      quick=reg(RTM, ['k_expect_0', 'k_expect_1', 'k_expect_2', 'k_expect_3']), thorough=[], assumptions=[], timeout=600),
     'U-xr': dict(functions='TestResult::get_exit_code + TestCase::has_failures', cls='bounded (<= 2 test cases x <= 2 failed rules)',
@@ -80,9 +82,9 @@ UNITS = {
                    quick=reg(FS, ['k_join_edge', 'k_join_111', 'k_join_011', 'k_join_101', 'k_join_110', 'k_join_000']), thorough=[],
                    assumptions=STUBS + ['Kani stub: String::with_capacity -> String::new (capacity is a hint; the 512-byte buffer of join made CBMC exceed 24 GB)'], timeout=600, mem_gb=8),
     'U-cnf': dict(functions='eval::eval_conjunction_clauses (real generic code, T = forced leaf)',
-                  cls='bounded (all shapes of 1 line x <= 3 alternatives and 2 lines x <= 2 alternatives quick; 2 x <= 3 and 3 x 1 thorough; every leaf in PASS/FAIL/SKIP/Err)',
-                  quick=reg(EV, ['k_cnf_0', 'k_cnf_1_1', 'k_cnf_1_2', 'k_cnf_1_3', 'k_cnf_2_1q', 'k_cnf_2_2q']),
-                  thorough=reg(EV, ['k_cnf_2_1', 'k_cnf_2_2', 'k_cnf_2_3', 'k_cnf_3_1s']),
+                  cls='bounded (quick: all shapes of 1 line x <= 2 alternatives and 2 lines x 1 alternative; thorough: also 1 x 3, 2 x <= 3, 3 x 1; every leaf in PASS/FAIL/SKIP/Err) -- the unbounded statement is the Verus unit U-cnf-v',
+                  quick=reg(EV, ['k_cnf_0', 'k_cnf_1_1', 'k_cnf_1_2', 'k_cnf_2_1q']),
+                  thorough=reg(EV, ['k_cnf_1_3', 'k_cnf_2_2q', 'k_cnf_2_1', 'k_cnf_2_2', 'k_cnf_2_3', 'k_cnf_3_1s']),
                   assumptions=[STUBS[0], 'leaf evaluators are pure status sources (their own records are their business: clause_post)'], timeout=900, mem_gb=8),
     'U-cmp-int': dict(functions='path_value::compare_values/compare_eq/compare_lt/le/gt/ge on Int', cls='complete (all i64 x i64)',
                       quick=reg(PV, ['k_cmp_int']), thorough=[], assumptions=STUBS, timeout=300),
@@ -90,8 +92,8 @@ UNITS = {
                         quick=reg(PV, ['k_cmp_float', 'k_cmp_float_nan']), thorough=[], assumptions=STUBS, timeout=300),
     'U-cmp-char-null-bool': dict(functions='path_value::compare_* on Char, Null, Bool', cls='complete (all char x char, bool x bool)',
                                  quick=reg(PV, ['k_cmp_char', 'k_cmp_null_bool']), thorough=[], assumptions=STUBS, timeout=300),
-    'U-cmp-types': dict(functions='path_value::compare_* across variants', cls='complete (all 72 ordered pairs of distinct scalar-payload variants, full payload domains)',
-                        quick=reg(PV, ['k_eq_range_int'] + ['k_cmp_types_%d' % i for i in range(9)]), thorough=[], assumptions=STUBS, timeout=500),
+    'U-cmp-types': dict(functions='path_value::compare_* across variants', cls='complete over the variant pairs checked, full payload domains: quick 24 of the 72 ordered pairs of distinct scalar-payload variants (left variant Bool, Int or Char), thorough all 72 -- type gating for ALL pairs is the Verus unit U-cmpv',
+                        quick=reg(PV, ['k_eq_range_int', 'k_cmp_types_2', 'k_cmp_types_3', 'k_cmp_types_5']), thorough=reg(PV, ['k_cmp_types_%d' % i for i in (0, 1, 4, 6, 7, 8)]), assumptions=STUBS, timeout=500),
     'U-peq': dict(functions='impl PartialEq for PathAwareValue vs compare_eq', cls='complete (9 scalar-payload variants squared, full payload domains)',
                   quick=[], thorough=reg(PV, ['k_peq_%d' % i for i in range(9)]), assumptions=STUBS, timeout=600),
     'U-peq-same': dict(functions='impl PartialEq for PathAwareValue vs compare_eq, same-type scalar pairs', cls='complete (Null, Bool, Int, Char pairs over the full payload domains); the Float pair exceeds 600 s (the Err(_) arm of eq drops an Error behind a symbolic discriminant) and is NOT registered',
